@@ -160,6 +160,9 @@ def _offset_cow(F, A, b, prs, rep, tag):
 
 def run(ctx, rep):
     rule_cow(ctx, rep)
+    from . import c03
+
+    c03.rule_gate_def(ctx, rep)  # the schedule clause rests on the Acquire gate (and on C02's Release decrement)
 
 
 def main(argv):
